@@ -17,8 +17,9 @@ def run(ctx):
     uni = Universe()
     traces = []
     alpha = [b"", b"\x00", b"a", b"b", b"ab", b"a\x00", b"bc", b"c"]
-    fixed = [b"X", b"Y", b"\x00", b"\xff"]
-    tuples = list(itertools.product(alpha[:5] if not thorough else alpha, alpha, alpha[:4] if not thorough else alpha, fixed[:2], fixed, fixed[:2]))
+    fixed = [b"X", b"Y", b"\x00", b"\xff", b"A", b"B", b"S"]     # incl. values that look like a side marker
+    tuples = list(itertools.product(alpha[:5] if not thorough else alpha, alpha, alpha[:4] if not thorough else alpha,
+                                    [b"X", b"A", b"S"], fixed, [b"K", b"B"]))
     if not thorough:
         tuples = [t for k, t in enumerate(tuples) if k % 3 == ctx.seed % 3]
     for i in range(0, len(tuples), 300):
@@ -51,5 +52,10 @@ def run(ctx):
             t.raw(pure.ev_finalize_sym(ida, X, Y, K, pw))
             t.raw(pure.ev_finalize_sym(ida, X, X[:-1] + bytes([X[-1] ^ 1]), K, pw))
             t.raw(pure.ev_finalize(ida + idb, b"", X, Y, K, pw))
+            # elements whose own first byte equals a side letter (about 1 in 256 real messages)
+            t.raw(pure.ev_finalize(ida, idb, b"A" + X[1:], b"B" + Y[1:], K, pw))
+            t.raw(pure.ev_finalize(ida, idb, b"B" + X[1:], b"A" + Y[1:], b"S" + K[1:], pw))
+            t.raw(pure.ev_finalize_sym(ida, b"S" + X[1:], b"S" + Y[1:], K, pw))
+            t.raw(pure.ev_finalize_sym(ida, b"A" + X[1:], b"S" + Y[1:], b"B" + K[1:], pw))
     traces.append(t.to_json())
     ctx.validate(traces, uni, what="transcript")
